@@ -1349,12 +1349,22 @@ func ruleWireAssert(w *World, r *RuleResult) {
 			if e.Kind == "call" && e.Callee == ea {
 				called = true
 				pre := hasCond(p, func(a *T, v bool) bool {
+					if a.Op == "ext" && a.C == 2 && v && len(a.A) == 1 && a.A[0].Op == "call" && a.A[0].S == "strings.CutPrefix" && len(a.A[0].A) == 2 && a.A[0].A[1].Op == "str" && a.A[0].A[1].S == ";assert" {
+						return true // the found flag of strings.CutPrefix
+					}
 					return a.Op == "call" && a.S == "strings.HasPrefix" && v && len(a.A) == 2 && a.A[1].Op == "str" && a.A[1].S == ";assert"
 				})
 				r.check(pre, "assertions/prefix", w.Pos(instrPosE(&e)), "lines starting with ;assert are evaluated", "evaluateAssertion is not guarded by the ;assert prefix test")
 				// the text passed is the comment minus the 7-byte prefix
 				arg := e.Args[1]
 				good := arg.Op == "slice" && arg.A[1].IsConstVal(7)
+				// or the remainder strings.CutPrefix(comment, ";assert") hands back
+				if a := stripConv(arg); a.Op == "ext" && a.C == 1 && len(a.A) == 1 && a.A[0].Op == "call" && a.A[0].S == "strings.CutPrefix" && len(a.A[0].A) == 2 && a.A[0].A[1].Op == "str" && a.A[0].A[1].S == ";assert" {
+					good = true
+				}
+				if a := stripConv(arg); a.Op == "call" && a.S == "strings.TrimPrefix" && len(a.A) == 2 && a.A[1].Op == "str" && a.A[1].S == ";assert" {
+					good = true
+				}
 				r.check(good, "assertions/text", w.Pos(instrPosE(&e)), "expression text = comment[7:]", "assertion text passed is "+arg.Show()+", not the comment after ';assert'")
 			}
 		}
